@@ -800,6 +800,7 @@ where
         .build()
         .expect("runtime");
 
+    set_observe_ignore_group(None);
     fe2o3_amqp::verif::install(fe2o3_amqp::verif::Hooks {
         spawn: Box::new(spawn_engine),
         sched_point: Box::new(|name| {
@@ -807,6 +808,11 @@ where
             // (a yield there would be an await point the production code does not have)
             let den = if name.starts_with("observe.") { 0 } else { with_state(|s| s.sched_yield_den) };
             let y = if den == 0 { false } else { choice(den) == 1 };
+            // a scenario that runs a second sender or receiver of the same kind on the other endpoint
+            // keeps that one's observation points out of the counters
+            if den == 0 && OBSERVE_IGNORE_GROUP.with(|g| g.get()) == Some(current_group()) {
+                return y;
+            }
             with_state(|s| {
                 s.sched_seq += 1;
                 let stamp = s.sched_seq;
@@ -973,6 +979,16 @@ impl Drop for PendingOp {
 }
 
 /// How often the named schedule / observation point of the code under test was reached
+thread_local! {
+    static OBSERVE_IGNORE_GROUP: std::cell::Cell<Option<u32>> = std::cell::Cell::new(None);
+}
+
+/// Observation points (`observe.*`) reached by tasks of this group are not counted (per run; reset
+/// by the runner before every run)
+pub fn set_observe_ignore_group(g: Option<u32>) {
+    OBSERVE_IGNORE_GROUP.with(|c| c.set(g));
+}
+
 pub fn sched_point_count(name: &str) -> u64 {
     with_state(|s| s.sched_points.get(name).map(|e| e.0).unwrap_or(0))
 }
